@@ -10,9 +10,21 @@ plain sum.
 Snapshots: a real Model built with 'Reservoir Model, 8' (SBTReservoir, SBTWellbores, SBTEconomics), after
 Model.read_parameters()."""
 from contracts.common import enum_by_int, model_after_reading
-from contracts.c03_costs import EconomicsCalculate
-from pyvc.contracts import Int, ListOf, NdOf, Real, contract
+from contracts.c03_costs import EconomicsCalculate, calculate_cost_of_non_vertical_section
+from pyvc.contracts import Bool, Const, Int, ListOf, NdOf, Real, contract
 from pyvc.spec import If
+
+
+@contract
+class calculate_cost_of_lateral_section(calculate_cost_of_non_vertical_section):
+    """the SBT copy of the lateral-cost helper (SBTEconomics.py): same statement, same 35 configurations; used through this
+    contract at its call sites in SBTEconomics.Calculate (correlation not enumerated there: result abstract)"""
+    key = "geophires_x/SBTEconomics.py::calculate_cost_of_lateral_section"
+    property_ids = ("C03",)
+    params = dict(model=Const(None), length_m=Real, well_correlation=Const(None), lateral_drilling_cost_per_m=Real,
+                  num_lateral_sections=Int, fixed_well_cost_name=Const("name"), NonverticalsCased=Bool,
+                  well_cost_adjustment_factor=Real)
+    per_m_name, sections_name = "lateral_drilling_cost_per_m", "num_lateral_sections"
 
 
 @contract
@@ -21,9 +33,9 @@ class SBTEconomicsCalculate(EconomicsCalculate):
     property_ids = ("C03", "C04", "C16")
     inline_callees = ("geophires_x/Economics.py::Economics._calculate_derived_outputs",)
     assumptions = EconomicsCalculate.assumptions + (
-        "SBTEconomics.Calculate: calculate_cost_of_lateral_section (same file, no contract of its own) is INLINED into the "
-        "unit and verified as part of it; the roll-up clauses are "
-        "stated over the REPORTED figures",
+        "SBTEconomics.Calculate: calculate_cost_of_lateral_section is verified per correlation in its own units and used "
+        "through that contract here (correlation not enumerated at the call site: the lateral and junction figures are "
+        "'whatever the code computes', the roll-up clauses are stated over the REPORTED figures)",
     )
 
     # SBT runs: electricity and direct-use heat with the plant types the SBT examples use; the other end-use families go
